@@ -88,8 +88,218 @@ let eval_z (f : M.z -> M.zres) rest =
       | _ -> "MODEL-DISAGREES"
     end else r
 
-let eval_with (v : M.variant) (inp : string) : string =
+(* ------------------------------------------------------------------ B lines: the scale stream
+   (harness/cmd/heapqtrace/big.go).  Batched operations, element lists given by generators, records
+   bounded by digests. *)
+let fnv64 s =
+  let h = ref 0xcbf29ce484222325L in
+  String.iter (fun c -> h := Int64.mul (Int64.logxor !h (Int64.of_int (Char.code c))) 0x100000001b3L) s;
+  Printf.sprintf "%Lx" !h
+let fnv_elems l = fnv64 (es_str l)
+
+(* -?[0-9]+ of at most 9 characters *)
+let sint_opt s =
+  let n = String.length s in
+  if n = 0 || n > 9 then None else
+  let st = if s.[0] = '-' then 1 else 0 in
+  if st = n then None else
+  let ok = ref true in
+  String.iteri (fun i c -> if i >= st && (c < '0' || c > '9') then ok := false) s;
+  if !ok then int_of_string_opt s else None
+
+let big_max_n = 10000
+type gspec = { pat : char; gn : int; ga : int; gb : int; gc : int }
+let gspec_opt s =
+  if String.length s < 2 || not (String.contains "udezbr" s.[0]) then None else
+  let mk n a b c =
+    let g = { pat = s.[0]; gn = n; ga = a; gb = b; gc = c } in
+    if n < 0 || n > big_max_n || c < 0 || c > big_max_n then None
+    else if (g.pat = 'b' && b < 1) || (g.pat = 'r' && (a < 1 || b < 0)) then None
+    else Some g in
+  match List.map sint_opt (String.split_on_char ',' (String.sub s 1 (String.length s - 1))) with
+  | [Some n; Some a; Some b] -> mk n a b 0
+  | [Some n; Some a; Some b; Some c] -> mk n a b c
+  | _ -> None
+let gkeys g =
+  let x = ref g.gb in
+  List.init g.gn (fun j ->
+    match g.pat with
+    | 'u' -> g.ga + j
+    | 'd' -> g.ga + (g.gn - 1 - j)
+    | 'e' -> g.ga
+    | 'z' -> if j mod 2 = 0 then g.ga + j else g.ga + 2 * g.gn - j
+    | 'b' -> g.ga + j / g.gb
+    | _ -> x := (!x * 1103515245 + 12345) land 0x7fffffff; 1 + (!x lsr 8) mod g.ga)
+(* the elements of a generator; payloads are handed out from the counter *)
+let gelems (nextp : int ref) g : e list =
+  List.map (fun k -> let p = !nextp in incr nextp; (k, p)) (gkeys g)
+
+type bop =
+  | BNew of int | BNewData of int * gspec | BSet of gspec | BAdd of gspec | BPop of int
+  | BRemove of int | BX of int | BReorder of int | BClear | BUpdate of bool | BObs of int | BBad
+let parse_bop s =
+  if s = "" then BBad else
+  let arg = String.sub s 1 (String.length s - 1) in
+  match s.[0] with
+  | 'n' -> (match dir_opt arg with Some d -> BNew d | None -> BBad)
+  | 'W' -> if arg = "" then BBad else
+    (match dir_opt (String.sub arg 0 1), gspec_opt (String.sub arg 1 (String.length arg - 1)) with
+     | Some d, Some g -> BNewData (d, g) | _ -> BBad)
+  | 'S' -> (match gspec_opt arg with Some g -> BSet g | None -> BBad)
+  | 'A' -> (match gspec_opt arg with Some g -> BAdd g | None -> BBad)
+  | 'P' -> (match sint_opt arg with Some k when k >= 0 && k <= big_max_n -> BPop k | _ -> BBad)
+  | 'R' -> (match sint_opt arg with Some i -> BRemove i | None -> BBad)
+  | 'X' -> (match sint_opt arg with Some p -> BX p | None -> BBad)
+  | 'o' -> (match dir_opt arg with Some d -> BReorder d | None -> BBad)
+  | 'c' -> if arg = "" then BClear else BBad
+  | 'U' -> (match arg with "0" -> BUpdate false | "1" -> BUpdate true | _ -> BBad)
+  | 'O' -> (match sint_opt arg with Some k when k >= 0 -> BObs k | _ -> BBad)
+  | _ -> BBad
+
+let is_pow2_ n = n > 0 && n land (n - 1) = 0
+let add_sampled j cnt m = j < 3 || j >= cnt - 3 || is_pow2_ m || is_pow2_ (m + 1) || is_pow2_ (m + 2)
+let window_of (lay : e list) =
+  let n = List.length lay in
+  List.filteri (fun i _ -> i < 3 || i >= n - 3) lay
+
+(* the comparison functions by code, written out here independently of the model (OCaml's /
+   truncates towards zero like Go's); used by the spec and by the trigger conditions below *)
+let kcmp code ((a, pa) : e) ((b, pb) : e) =
+  match code with
+  | 0 -> compare a b
+  | 1 -> - (compare a b)
+  | 2 -> 3 * (a - b)
+  | 3 -> 7 * (b - a)
+  | 4 -> compare (a / 4) (b / 4)
+  | 5 -> (b / 4 - a / 4) * 2
+  | 6 -> 0
+  | _ -> pa - pb
+
+exception Stop of string
+(* per record of the last B line evaluated: had a trigger of finding F1 / F2 occurred, on the MODEL's
+   layouts, since the last reset when the op of that record began?  (Used only after the model under
+   the pinned variant has reproduced the implementation's records, digests included.) *)
+let model_taints : (bool * bool) array ref = ref [||]
+
+let eval_big (v : M.variant) (rest : string) : string =
+  let q = ref (M.q_new (z_of_int 0)) and desc = ref 0 and rep = ref true and nextp = ref 1 in
+  let pos : (int, int) Hashtbl.t = Hashtbl.create 64 in
+  let t1 = ref false and t2 = ref false in
+  let mvn = ref 0 and mvb = Buffer.create 256 in
+  let taints = ref [] in
+  let layout () = List.map em (M.q_data !q) in
+  (* one call of the model *)
+  let step (o : (M.z * M.z) M.op) : (M.z * M.z) M.out =
+    let before = M.q_data !q in
+    (match o with
+     | M.OAdd x ->
+       let nn = List.length before in
+       if not (nn <= 2 || is_pow2_ (nn + 1)
+               || (kcmp !desc (em (List.nth before (nn / 2))) (em x) <= 0
+                   && kcmp !desc (em (List.nth before ((nn - 1) / 2))) (em x) <= 0)) then t1 := true
+     | M.ORemove zi ->
+       let i = int_of_z zi and len0 = List.length before in
+       if i > 0 && i < len0 - 1
+          && kcmp !desc (em (List.nth before ((i - 1) / 2))) (em (List.nth before (len0 - 1))) > 0 then t2 := true
+     | _ -> ());
+    match M.q_step v !q o with
+    | M.IndexPanic -> raise (Stop "PANIC:index")
+    | M.OutOfFuel -> raise (Stop "FUEL")
+    | M.Ok (q', (r, mv)) ->
+      q := q';
+      if !rep then List.iter (fun (x, i) ->
+        let x = em x and i = int_of_z i in
+        if !mvn > 0 then Buffer.add_char mvb ',';
+        Buffer.add_string mvb (e_str x ^ ":" ^ string_of_int i);
+        incr mvn;
+        Hashtbl.replace pos (snd x) i) mv;
+      (match o with
+       | M.ONew _ | M.ONewWithData _ | M.OSet _ | M.OReorder _ | M.OClear -> t1 := false; t2 := false
+       | _ -> ());
+      (match M.q_data q' with [] | [_] -> t1 := false; t2 := false | _ -> ());
+      r in
+  let vstr = function M.RVal (Some x) -> "v" ^ e_str (em x) | M.RVal None -> "-" | M.RPanic -> "!" | _ -> "BADRES" in
+  let state () =
+    let lay = layout () in
+    let wrongn = ref 0 and missn = ref 0 and wrong = Buffer.create 16 and miss = Buffer.create 16 in
+    List.iteri (fun i (x : e) ->
+      match Hashtbl.find_opt pos (snd x) with
+      | None -> incr missn; if !missn <= 8 then Buffer.add_string miss (Printf.sprintf ":%s@%d" (e_str x) i)
+      | Some p -> if p <> i then begin
+          incr wrongn; if !wrongn <= 8 then Buffer.add_string wrong (Printf.sprintf ":%s@%d=%d" (e_str x) i p) end) lay;
+    Printf.sprintf "%d/%s/%s/%s/%d%s/%d%s" (List.length lay) (fnv_elems lay) (fnv_elems (List.sort compare lay))
+      (es_str (window_of lay)) !wrongn (Buffer.contents wrong) !missn (Buffer.contents miss) in
+  let run (o : bop) : string =           (* the result part; "?" = unreadable *)
+    match o with
+    | BBad -> "?"
+    | BNew d -> Hashtbl.reset pos; rep := true; ignore (step (M.ONew (M.ccmp (z_of_int d)))); desc := d; "u"
+    | BNewData (d, g) ->
+      let es = gelems nextp g in
+      Hashtbl.reset pos; rep := false;
+      ignore (step (M.ONewWithData (M.ccmp (z_of_int d), List.map me es))); desc := d; rep := true; "u"
+    | BSet g -> let es = gelems nextp g in ignore (step (M.OSet (List.map me es))); "u"
+    | BAdd g ->
+      let es = gelems nextp g in
+      let cnt = List.length es in
+      let idxs = ref [] and samples = ref [] in
+      List.iteri (fun j x ->
+        let m = List.length (M.q_data !q) in
+        let idx = (match step (M.OAdd (me x)) with M.RIdx i -> int_of_z i | _ -> -1) in
+        idxs := string_of_int idx :: !idxs;
+        if add_sampled j cnt m then begin
+          let pk = (match (if idx >= 0 then List.nth_opt (M.q_data !q) idx else None) with Some y -> e_str (em y) | None -> "-") in
+          let rp = (match Hashtbl.find_opt pos (snd x) with Some p -> string_of_int p | None -> "-") in
+          samples := Printf.sprintf "%d=%d/%s/%s" j idx pk rp :: !samples
+        end) es;
+      Printf.sprintf "i%d:%s:%s" cnt (fnv64 (String.concat "," (List.rev !idxs))) (String.concat "," (List.rev !samples))
+    | BPop k ->
+      let got = ref [] in
+      for _ = 1 to k do
+        match step M.OPop with M.RVal (Some x) -> got := em x :: !got | _ -> ()
+      done;
+      Printf.sprintf "v%d:%s" (List.length !got) (es_str (List.rev !got))
+    | BRemove i ->
+      if i < 0 then (match step (M.ORemove (z_of_int i)) with M.RPanic -> "!" | r -> vstr r ^ "/?")
+      else begin
+        let pk = vstr (step (M.OPeek (z_of_int i))) in
+        vstr (step (M.ORemove (z_of_int i))) ^ "/" ^ pk
+      end
+    | BX p ->
+      (match Hashtbl.find_opt pos p with
+       | Some i when i >= 0 -> vstr (step (M.ORemove (z_of_int i)))
+       | _ -> "?")
+    | BReorder d -> ignore (step (M.OReorder (M.ccmp (z_of_int d)))); desc := d; "u"
+    | BClear -> ignore (step M.OClear); "u"
+    | BUpdate b -> rep := b; if not b then Hashtbl.reset pos; "u"
+    | BObs k ->
+      let n = (match step M.OLen with M.RNum n -> int_of_z n | _ -> -1) in
+      let b = (match step M.OIsEmpty with M.RBool b -> b01 b | _ -> "?") in
+      let f = (match step M.OFront with M.RVal (Some x) -> e_str (em x) | M.RVal None -> "0.0" | _ -> "?") in
+      let each k = (match step (M.OEach (nat_of_int k)) with M.RList l -> List.map em l | _ -> []) in
+      let all = each 0 and some = each k in
+      let swept i = n <= 1100 || i < 300 || i >= n - 300 || i mod 16 = 0 || is_pow2_ i || is_pow2_ (i + 1) || is_pow2_ (i + 2) in
+      let peeks = List.filter_map (fun i ->
+        if swept i then Some (match step (M.OPeek (z_of_int i)) with M.RVal (Some x) -> e_str (em x) | _ -> "missing") else None)
+        (List.init (max n 0) (fun i -> i)) in
+      Printf.sprintf "n%d,b%s,f%s,E%d:%s,e%d:%s,K%s,%s,%s" n b f (List.length all) (fnv_elems all)
+        (List.length some) (fnv_elems some) (fnv64 (String.concat "," peeks))
+        (vstr (step (M.OPeek (z_of_int (-1))))) (vstr (step (M.OPeek (z_of_int n)))) in
+  let outs = ref [] in
+  (try
+    List.iter (fun s ->
+      taints := (!t1, !t2) :: !taints;
+      mvn := 0; Buffer.clear mvb;
+      match (try run (parse_bop s) with Stop m -> outs := m :: !outs; raise Exit) with
+      | "?" -> outs := "?" :: !outs
+      | res -> outs := Printf.sprintf "%s@%d:%s#%s" res !mvn (fnv64 (Buffer.contents mvb)) (state ()) :: !outs)
+      (String.split_on_char ';' rest)
+  with Exit -> ());
+  model_taints := Array.of_list (List.rev !taints);
+  String.concat ";" (List.rev !outs)
+
+let eval_with_ (v : M.variant) (inp : string) : string =
   match cut_kind inp with
+  | ("B", rest) -> eval_big v rest
   | ("Z", rest) -> eval_z M.zset64 rest
   | ("S", rest) ->
     if rest = "" then "?" else
@@ -153,24 +363,23 @@ let eval_with (v : M.variant) (inp : string) : string =
     String.concat ";" (List.rev !outs)
   | _ -> "?"
 
+(* the last evaluations are remembered (the known-finding rule below evaluates the same line under
+   up to four variants, one of which the main loop has just computed) *)
+let memo : (string * M.variant * string * (bool * bool) array) list ref = ref []
+let eval_with (v : M.variant) (inp : string) : string =
+  match List.find_opt (fun (i, w, _, _) -> w = v && String.equal i inp) !memo with
+  | Some (_, _, o, t) -> model_taints := t; o
+  | None ->
+    let o = eval_with_ v inp in
+    memo := (inp, v, o, !model_taints) :: (match !memo with a :: b :: c :: _ -> [a; b; c] | l -> l);
+    o
+
 let eval = eval_with M.current_variant
 
 (* ------------------------------------------------------------------ the property on an output *)
 exception Fail of string
 let failf fmt = Printf.ksprintf (fun s -> raise (Fail s)) fmt
 
-(* the comparison functions, written out here independently of the model (OCaml's / truncates
-   towards zero like Go's) *)
-let kcmp code ((a, pa) : e) ((b, pb) : e) =
-  match code with
-  | 0 -> compare a b
-  | 1 -> - (compare a b)
-  | 2 -> 3 * (a - b)
-  | 3 -> 7 * (b - a)
-  | 4 -> compare (a / 4) (b / 4)
-  | 5 -> (b / 4 - a / 4) * 2
-  | 6 -> 0
-  | _ -> pa - pb
 
 (* Has a trigger of known finding F1 / F2 (coq/Heapq/HeapqTriggerSpec.v, theorem
    C05_min_since_reset) occurred since the queue was last ordered by a reset (New, NewWithData,
@@ -352,10 +561,193 @@ let check_history (prop : string) (rest : string) (out : string) : unit =
       end in
   go 1 ops outs
 
+(* ---- B lines.  The spec keeps its own bag of held elements (payload -> key; payloads are distinct
+   in B lines), fed by the generators of the input and by the values the implementation returned,
+   and checks on the implementation's records: every returned element is held (and, C05, minimal
+   among the held ones under the current comparison), counts, Len/IsEmpty/Front, the digest of the
+   SORTED contents against the bag's (conservation), Each and the Peek sweep digesting to the
+   layout's digest, Add's returned index holding the new element and (C06) being its reported
+   position, Remove at a reported position removing that very element (C06), no tracked element
+   among those with a wrong or no reported position (C06).  fail_rec = index of the failing record. *)
+let fail_rec = ref 0
+
+let check_big (prop : string) (rest : string) (out : string) : unit =
+  let c05 = (prop <> "C06") and c06 = (prop = "C06") in
+  let bag : (int, int) Hashtbl.t = Hashtbl.create 256 in
+  let tracked : (int, unit) Hashtbl.t = Hashtbl.create 256 in
+  let desc = ref 0 and inst = ref true and nextp = ref 1 in
+  let held (k, p) = Hashtbl.find_opt bag p = Some k in
+  let take n what (x : e) =
+    if not (held x) then failf "op#%d %s returned %s which is not held" n what (e_str x);
+    Hashtbl.remove bag (snd x); Hashtbl.remove tracked (snd x) in
+  let minimal n what (x : e) =
+    if c05 then Hashtbl.iter (fun p k -> if kcmp !desc x (k, p) > 0 then
+      failf "op#%d %s returned %s but %s is held" n what (e_str x) (e_str (k, p))) bag in
+  let put (x : e) = Hashtbl.replace bag (snd x) (fst x); if !inst then Hashtbl.replace tracked (snd x) () in
+  let velem n s =
+    if String.length s >= 2 && s.[0] = 'v' then
+      (match elem_opt (String.sub s 1 (String.length s - 1)) with Some x -> x | None -> failf "op#%d: result %s" n s)
+    else failf "op#%d: result %s where a value was expected" n s in
+  let ops = String.split_on_char ';' rest in
+  let outs = if out = "" then [] else String.split_on_char ';' out in
+  let rec go n ops outs =
+    fail_rec := n - 1;
+    match ops, outs with
+    | [], [] -> ()
+    | [], _ -> failf "more records than ops"
+    | _ :: _, [] -> failf "op#%d: the history ended early" n
+    | o :: ops', s :: outs' ->
+      if String.length s >= 5 && String.sub s 0 5 = "PANIC" then failf "op#%d panicked inside the package (%s)" n s;
+      if s = "FUEL" then failf "op#%d ran out of fuel" n;
+      let p = parse_bop o in
+      if p = BBad then (if s <> "?" then failf "op#%d: unreadable op answered" n; go (n+1) ops' outs') else
+      if s = "?" then begin
+        (* only X<p> with no reported position is skipped by the harness *)
+        (match p with
+         | BX pl -> if c06 && Hashtbl.mem tracked pl then
+             failf "op#%d: no position was ever reported for the tracked payload %d" n pl
+         | _ -> failf "op#%d: a readable op was not answered" n);
+        go (n+1) ops' outs'
+      end else begin
+      let (res, mvc, st) =
+        match String.index_opt s '@' with
+        | None -> failf "op#%d: record %s" n (if String.length s > 40 then String.sub s 0 40 else s)
+        | Some i ->
+          (match String.index_from_opt s i '#' with
+           | None -> failf "op#%d: record without state" n
+           | Some j ->
+             let mv = String.sub s (i+1) (j-i-1) in
+             let mvc = (match String.index_opt mv ':' with
+                        | Some c -> (match sint_opt (String.sub mv 0 c) with Some k -> k | None -> failf "op#%d: callback count" n)
+                        | None -> failf "op#%d: callback digest" n) in
+             (String.sub s 0 i, mvc, String.sub s (j+1) (String.length s - j - 1))) in
+      if not !inst && mvc <> 0 && (match p with BNew _ | BNewData _ -> false | _ -> true) then
+        failf "op#%d: the update function was called although it had been removed" n;
+      let unit_res what = if res <> "u" then failf "op#%d %s: result %s" n what res in
+      let len0 = Hashtbl.length bag in
+      (match p with
+       | BNew d -> unit_res "New"; Hashtbl.reset bag; Hashtbl.reset tracked; inst := true; desc := d
+       | BNewData (d, g) -> unit_res "NewWithData";
+         Hashtbl.reset bag; Hashtbl.reset tracked; inst := false;
+         List.iter put (gelems nextp g); inst := true; desc := d
+       | BSet g -> unit_res "Set"; Hashtbl.reset bag; Hashtbl.reset tracked; List.iter put (gelems nextp g)
+       | BAdd g ->
+         let es = Array.of_list (gelems nextp g) in
+         let cnt = Array.length es in
+         (match String.split_on_char ':' res with
+          | [c; _; samples] when c = "i" ^ string_of_int cnt ->
+            let want = List.filter (fun j -> add_sampled j cnt (len0 + j)) (List.init cnt (fun j -> j)) in
+            let got = if samples = "" then [] else String.split_on_char ',' samples in
+            if List.length got <> List.length want then failf "op#%d Add: %d samples where %d were expected" n (List.length got) (List.length want);
+            List.iter2 (fun j smp ->
+              match String.index_opt smp '=' with
+              | None -> failf "op#%d Add: sample %s" n smp
+              | Some eq ->
+                if sint_opt (String.sub smp 0 eq) <> Some j then failf "op#%d Add: sample %s where add #%d was expected" n smp j;
+                (match String.split_on_char '/' (String.sub smp (eq+1) (String.length smp - eq - 1)) with
+                 | [idx; pk; rp] ->
+                   let x = es.(j) in
+                   (match sint_opt idx with
+                    | Some i when i >= 0 && i <= len0 + j -> ()
+                    | _ -> failf "op#%d Add #%d returned index %s outside the queue" n j idx);
+                   if pk <> e_str x then failf "op#%d Add #%d returned index %s but Peek finds %s there" n j idx pk;
+                   if c06 && !inst && rp <> idx then
+                     failf "op#%d Add #%d returned index %s but the last reported position of the new element is %s" n j idx rp
+                 | _ -> failf "op#%d Add: sample %s" n smp)) want got
+          | _ -> failf "op#%d Add: result %s" n (if String.length res > 40 then String.sub res 0 40 else res));
+         Array.iter put es
+       | BPop k ->
+         (match String.index_opt res ':' with
+          | Some c when c >= 2 && res.[0] = 'v' ->
+            let cnt = (match sint_opt (String.sub res 1 (c-1)) with Some x -> x | None -> failf "op#%d Pop: count" n) in
+            let l = must_elems (Printf.sprintf "op#%d Pop results" n) (String.sub res (c+1) (String.length res - c - 1)) in
+            if List.length l <> cnt then failf "op#%d Pop: %d results listed, %d counted" n (List.length l) cnt;
+            if cnt <> min k len0 then failf "op#%d: %d of %d Pops answered with %d elements held" n cnt k len0;
+            List.iter (fun x ->
+              if not (held x) then failf "op#%d Pop returned %s which is not held" n (e_str x);
+              minimal n "Pop" x; take n "Pop" x) l
+          | _ -> failf "op#%d Pop: result %s" n res)
+       | BRemove i ->
+         if i < 0 then (if res <> "!" then failf "op#%d Remove(%d) did not panic" n i)
+         else if i >= len0 then (if res <> "-/-" then failf "op#%d Remove(%d) beyond the end returned %s" n i res)
+         else (match String.split_on_char '/' res with
+               | [r; pk] ->
+                 let x = velem n r in
+                 if pk <> r then failf "op#%d Remove(%d) returned %s but Peek(%d) showed %s" n i r i pk;
+                 take n "Remove" x
+               | _ -> failf "op#%d Remove: result %s" n res)
+       | BX pl ->
+         if c06 && Hashtbl.mem tracked pl then begin
+           let x = velem n res in
+           if snd x <> pl then failf "op#%d Remove at the reported position of payload %d removed %s" n pl (e_str x);
+           take n "Remove" x
+         end else if res <> "-" then take n "Remove" (velem n res)
+       | BReorder d -> unit_res "Reorder"; desc := d
+       | BClear -> unit_res "Clear"; Hashtbl.reset bag; Hashtbl.reset tracked
+       | BUpdate b -> unit_res "Update"; inst := b; if not b then Hashtbl.reset tracked
+       | BObs _ | BBad -> ());
+      (* the state *)
+      let fields = String.split_on_char '/' st in
+      (match fields with
+       | [len; lf; sf; win; wrong; missing] ->
+         let nheld = Hashtbl.length bag in
+         if sint_opt len <> Some nheld then failf "op#%d: Len is %s with %d elements held" n len nheld;
+         let sorted = List.sort compare (Hashtbl.fold (fun p k acc -> (k, p) :: acc) bag []) in
+         if sf <> fnv_elems sorted then
+           failf "op#%d: the queue does not hold what was put in minus what was taken out (digest of the sorted contents %s, of the %d elements that should be held %s; offsets 0,1,2 and the last three hold %s)" n sf nheld (fnv_elems sorted) win;
+         List.iter (fun x -> if not (held x) then failf "op#%d: the queue holds %s which should not be held" n (e_str x))
+           (must_elems (Printf.sprintf "op#%d window" n) win);
+         (match p with
+          | BObs k ->
+            (match String.split_on_char ',' res with
+             | [ln; b; f; ea; es; kk; neg; beyond] ->
+               if ln <> "n" ^ string_of_int nheld then failf "op#%d Len returned %s with %d elements held" n ln nheld;
+               if b <> "b" ^ b01 (nheld = 0) then failf "op#%d IsEmpty returned %s with %d elements held" n b nheld;
+               if nheld = 0 then (if f <> "f0.0" then failf "op#%d Front on an empty queue returned %s" n f)
+               else begin
+                 let x = (match elem_opt (String.sub f 1 (String.length f - 1)) with Some x -> x | None -> failf "op#%d Front: %s" n f) in
+                 if not (held x) then failf "op#%d Front returned %s which is not held" n (e_str x);
+                 (match elems_opt win with Some (w0 :: _) when w0 <> x -> failf "op#%d Front returned %s but Peek(0) shows %s" n (e_str x) (e_str w0) | _ -> ());
+                 minimal n "Front" x
+               end;
+               if ea <> Printf.sprintf "E%d:%s" nheld lf then failf "op#%d Each visited %s, the layout is %d:%s" n ea nheld lf;
+               let stop = if k = 0 || k > nheld then nheld else k in
+               if not (String.length es > 1 && String.sub es 0 (min (String.length es) (String.length (string_of_int stop) + 2)) = Printf.sprintf "e%d:" stop) then
+                 failf "op#%d Each stopped at call %d visited %s" n k es;
+               if nheld <= 1100 && kk <> "K" ^ lf then failf "op#%d the Peek sweep digests to %s, the layout to %s" n kk lf;
+               if neg <> "!" then failf "op#%d Peek(-1) did not panic" n;
+               if beyond <> "-" then failf "op#%d Peek(Len) returned %s" n beyond
+             | _ -> failf "op#%d observers: %s" n res)
+          | _ -> ());
+         if c06 then begin
+           let entries what s =
+             match String.split_on_char ':' s with
+             | c :: l -> (match sint_opt c with Some k -> (k, l) | None -> failf "op#%d: %s count" n what)
+             | [] -> failf "op#%d: %s" n what in
+           let elem_of ent = (match String.index_opt ent '@' with
+             | Some a -> (match elem_opt (String.sub ent 0 a) with Some x -> (x, String.sub ent (a+1) (String.length ent - a - 1)) | None -> failf "op#%d: entry %s" n ent)
+             | None -> failf "op#%d: entry %s" n ent) in
+           let (_, wl) = entries "wrong" wrong and (mc, ml) = entries "missing" missing in
+           List.iter (fun ent -> let (x, w) = elem_of ent in
+             if Hashtbl.mem tracked (snd x) then
+               (match String.split_on_char '=' w with
+                | [off; rp] -> failf "op#%d: %s is at offset %s but its last reported position is %s" n (e_str x) off rp
+                | _ -> failf "op#%d: entry %s" n ent)) wl;
+           List.iter (fun ent -> let (x, w) = elem_of ent in
+             if Hashtbl.mem tracked (snd x) then failf "op#%d: %s is at offset %s but no position was ever reported for it" n (e_str x) w) ml;
+           if mc > nheld - Hashtbl.length tracked then
+             failf "op#%d: %d held elements have no reported position, but only %d entered while no update function was installed" n mc (nheld - Hashtbl.length tracked)
+         end
+       | _ -> failf "op#%d: state %s" n (if String.length st > 60 then String.sub st 0 60 else st));
+      go (n+1) ops' outs'
+      end in
+  go 1 ops outs
+
 let check prop inp out : string option =
   taint_f1 := false; taint_f2 := false;
   try
     (match cut_kind inp with
+     | ("B", rest) -> check_big prop rest out
      | ("Z", rest) ->
        if prop <> "C06" && out <> "?" && out <> "ok " ^ rest then
          failf "Set on %s elements of a zero-size type: %s (Set must leave a valid heap of that many elements)" rest out
@@ -393,8 +785,15 @@ let spec prop inp out =
   | None -> None
   | Some reason when fst (cut_kind inp) = "Z" -> spec_z prop inp (snd (cut_kind inp)) out reason
   | Some reason ->
-    let t1 = !taint_f1 and t2 = !taint_f2 in
-    if eval_with M.pinned inp <> out then Some reason
+    let big = (fst (cut_kind inp) = "B") and rec_ = !fail_rec in
+    let pinned_out = eval_with M.pinned inp in
+    (* H lines: the triggers were evaluated by the check on the implementation's own layouts.  B lines
+       carry digests of the layouts only: the triggers are evaluated on the pinned model's layouts,
+       which are the implementation's once its records (digests included) are reproduced. *)
+    let (t1, t2) =
+      if big then (if rec_ >= 0 && rec_ < Array.length !model_taints then !model_taints.(rec_) else (false, false))
+      else (!taint_f1, !taint_f2) in
+    if pinned_out <> out then Some reason
     else if not (t1 || t2) then Some (reason ^ " [not a known finding: no F1/F2 trigger since the last reset]")
     else if check prop inp (eval_with M.repaired inp) <> None then Some reason
     else if t1 && (not t2 || check prop inp (eval_with (M.mk_variant false true) inp) = None) then begin
